@@ -1,5 +1,168 @@
 import GT.Base.JsonQ
-open Lean GT.J
+import GT.Base.QSqrt
+import GT.Model.Targets
+open Lean GT.J GT GT.Targets
 namespace GT.Driver.C13
-def ops : List (String × Handler) := []
+
+def needSq (q : ℚ) : R Unit := if isSq q then pure () else throw "irrational-root"
+
+/-! Staged (materialised) versions of the model functions: a `DVec` value is evaluated once,
+whereas a function-typed vector re-evaluates its whole expression tree on every access.  Each
+staged function is proved equal to the model definition the theorems are about. -/
+
+abbrev V (n : ℕ) := DVec n ℚ
+def S {n : ℕ} (v : Fin n → ℚ) : V n := DVec.ofFn v
+
+@[simp] theorem S_toFn {n : ℕ} (v : Fin n → ℚ) : (S v).toFn = v := DVec.toFn_ofFn v
+
+/-- run `k` on the vector stored under `key`, whatever its length `n+1 ≥ 1` -/
+def withVec (j : Json) (key : String) (k : (n : ℕ) → (Fin (n + 1) → ℚ) → R Json) : R Json := do
+  let xa ← qArr (← field j key)
+  match xa.size with
+  | 0 => throw "empty vector"
+  | n + 1 => k n (← vec (n + 1) (.arr (xa.map ofQ)))
+
+def originRow0S {n : ℕ} (r : ℚ → ℚ) (x : Fin (n + 1) → ℚ) : V (n + 1) :=
+  let xh := S (normalize r x)
+  S (normalize r xh.toFn)
+
+theorem originRow0S_eq {n : ℕ} (r : ℚ → ℚ) (x : Fin (n + 1) → ℚ) :
+    (originRow0S r x).toFn = originToRow0 r x := by
+  simp [originRow0S, originToRow0, gsRow0]
+
+def tvRow1S {n : ℕ} (r : ℚ → ℚ) (p v : Fin (n + 1) → ℚ) : V (n + 1) :=
+  let w := S (projHyp p v)
+  let wh := S (normalize r w.toFn)
+  let ph := S (normalize r p)
+  let y := S (fun i => wh.toFn i - mproj wh.toFn ph.toFn i)
+  S (normalize r y.toFn)
+
+theorem tvRow1S_eq {n : ℕ} (r : ℚ → ℚ) (p v : Fin (n + 1) → ℚ) :
+    (tvRow1S r p v).toFn = tvOriginToRow1 r p v := by
+  simp [tvRow1S, tvOriginToRow1, gsRow1]
+
+def tvNormalizedS {n : ℕ} (r : ℚ → ℚ) (p v : Fin (n + 1) → ℚ) : V (n + 1) :=
+  let w := S (projHyp p v)
+  let wh := S (normalize r w.toFn)
+  S (projHyp p wh.toFn)
+
+theorem tvNormalizedS_eq {n : ℕ} (r : ℚ → ℚ) (p v : Fin (n + 1) → ℚ) :
+    (tvNormalizedS r p v).toFn = tvNormalizedVec r p v := by
+  simp [tvNormalizedS, tvNormalizedVec]
+
+def towardsS {n : ℕ} (r : ℚ → ℚ) (p q : Fin (n + 1) → ℚ) : V (n + 1) :=
+  let s : ℚ := if mink p q > 0 then -1 else 1
+  let d := S (fun i => s * q i - p i)
+  tvNormalizedS r p d.toFn
+
+theorem towardsS_eq {n : ℕ} (r : ℚ → ℚ) (p q : Fin (n + 1) → ℚ) :
+    (towardsS r p q).toFn = unitTangentTowards r p q := by
+  simp [towardsS, unitTangentTowards, tvNormalizedS_eq]
+
+def angleCosS {n : ℕ} (r : ℚ → ℚ) (p v₁ v₂ : Fin (n + 1) → ℚ) : ℚ :=
+  let a₁ := tvNormalizedS r p v₁
+  let a₂ := tvNormalizedS r p v₂
+  let b₁ := S (projHyp p a₁.toFn)
+  let b₂ := S (projHyp p a₂.toFn)
+  mink b₁.toFn b₂.toFn
+
+theorem angleCosS_eq {n : ℕ} (r : ℚ → ℚ) (p v₁ v₂ : Fin (n + 1) → ℚ) :
+    angleCosS r p v₁ v₂ = angleCos r p v₁ v₂ := by
+  simp [angleCosS, angleCos, tvNormalizedS_eq]
+
+theorem angleCosS_clamped_eq {n : ℕ} (r : ℚ → ℚ) (p v₁ v₂ : Fin (n + 1) → ℚ) :
+    max (-1) (min 1 (angleCosS r p v₁ v₂)) = angleCosClamped r p v₁ v₂ := by
+  rw [angleCosS_eq]; rfl
+
+/-- row 0 of `Point.origin_to()` -/
+def originRow0 (j : Json) : R Json := withVec j "x" fun _ x => do
+  needSq |mink x x|
+  let xh := S (normalize rsqrt x)
+  needSq |mink xh.toFn xh.toFn|
+  return ofQArr (originRow0S rsqrt x).a
+
+/-- rows 0, 1 of `TangentVector(p, v).origin_to()` -/
+def tvRows (j : Json) : R Json := withVec j "p" fun n p => do
+  let v ← vecf (n + 1) j "v"
+  if mink p p == 0 then throw "DivZero"
+  needSq |mink p p|
+  let w := S (projHyp p v)
+  needSq |mink w.toFn w.toFn|
+  return Json.arr #[ofQArr (originRow0S rsqrt p).a, ofQArr (tvRow1S rsqrt p v).a]
+
+/-- `.vector` of `p.unit_tangent_towards(q)` -/
+def towards (j : Json) : R Json := withVec j "p" fun n p => do
+  let q ← vecf (n + 1) j "q"
+  if mink p p == 0 then throw "DivZero"
+  let s : ℚ := if mink p q > 0 then -1 else 1
+  let w := S (projHyp p (fun i => s * q i - p i))
+  needSq |mink w.toFn w.toFn|
+  return ofQArr (towardsS rsqrt p q).a
+
+/-- `TangentVector(p, v).point_along(t)` with `(ch, sh) = (cosh t, sinh t)`: the projective
+vector `p̂ + (sh/ch)·v̂` and its `cosh`-distance from `p` -/
+def pointAlongOp (j : Json) : R Json := withVec j "p" fun n p => do
+  let v ← vecf (n + 1) j "v"
+  let ch ← qf j "ch"
+  let sh ← qf j "sh"
+  if mink p p == 0 then throw "DivZero"
+  if ch == 0 then throw "DivZero"
+  needSq |mink p p|
+  let w := S (projHyp p v)
+  needSq |mink w.toFn w.toFn|
+  let r0 := originRow0S rsqrt p
+  let r1 := tvRow1S rsqrt p v
+  let y := S (pointAlong r0.toFn r1.toFn (sh / ch))
+  needSq |mink y.toFn y.toFn|
+  return Json.mkObj [("pt", ofQArr y.a), ("cosh", ofQ (coshDist rsqrt p y.toFn)),
+    ("th", ofQ (hypToAffine ((ch + sh) ^ 2)))]
+
+/-- the argument of `arccos` in `TangentVector(p,v1).angle(TangentVector(p,v2))` -/
+def angleOp (j : Json) : R Json := withVec j "p" fun n p => do
+  let v₁ ← vecf (n + 1) j "v1"
+  let v₂ ← vecf (n + 1) j "v2"
+  if mink p p == 0 then throw "DivZero"
+  let w₁ := S (projHyp p v₁)
+  let w₂ := S (projHyp p v₂)
+  needSq |mink w₁.toFn w₁.toFn|
+  needSq |mink w₂.toFn w₂.toFn|
+  return ofQ (max (-1) (min 1 (angleCosS rsqrt p v₁ v₂)))
+
+/-- `polyVertex` with every iterate materialised -/
+def polyVertexS {n : ℕ} (c s th : ℚ) : ℕ → V (n + 3)
+  | 0 => S (polyStart th)
+  | i + 1 => S (rotApply c s (polyVertexS c s th i).toFn)
+
+theorem polyVertexS_eq {n : ℕ} (c s th : ℚ) (i : ℕ) :
+    (polyVertexS (n := n) c s th i).toFn = polyVertex c s th i := by
+  induction i with
+  | zero => simp [polyVertexS, polyVertex]
+  | succ i ih => simp [polyVertexS, polyVertex, ih]
+
+/-- vertices `0..cnt-1` of `Polygon.regular_polygon` in dimension `dim ≥ 2` -/
+def polyOp (j : Json) : R Json := do
+  let dim ← natf j "dim"
+  let cnt ← natf j "cnt"
+  let c ← qf j "c"
+  let s ← qf j "s"
+  let th ← qf j "th"
+  match dim with
+  | 0 | 1 => throw "GeometryError"
+  | m + 2 =>
+    return Json.arr ((Array.range cnt).map fun i => ofQArr (polyVertexS (n := m) c s th i).a)
+
+/-- the closed forms of `regular_polygon_radius` / `polygon_interior_angle` -/
+def polyFormulaOp (j : Json) : R Json := do
+  let A ← qf j "A"
+  let g ← qf j "g"
+  let S ← qf j "S"
+  if (1 - A) * g == 0 then throw "DivZero"
+  if 1 + g * S == 0 then throw "DivZero"
+  return Json.mkObj [("radius_sinh_sq", ofQ (polyRadiusSinhSq A g)),
+    ("angle_sin_sq", ofQ (polyAngleSinSq g S)), ("angle_cos", ofQ (polyAngleCos g S))]
+
+def ops : List (String × Handler) :=
+  [("c13.origin_row0", originRow0), ("c13.tv_rows", tvRows), ("c13.towards", towards),
+   ("c13.point_along", pointAlongOp), ("c13.angle_cos", angleOp), ("c13.poly", polyOp),
+   ("c13.poly_formula", polyFormulaOp)]
 end GT.Driver.C13
